@@ -116,13 +116,21 @@ impl Sim {
     /// thread side: block until the scheduler names this thread
     pub fn wait_turn(&self, me: usize) {
         let mut g = self.m.lock().unwrap_or_else(|e| e.into_inner());
-        if self.revoked[me].swap(false, Ordering::SeqCst) {
-            // we were taken for blocked before we even got here (slow thread start): re-join
-            self.outstanding.fetch_sub(1, Ordering::SeqCst);
-            self.sched_cv.notify_one();
-        }
-        while g.turn != Turn::Thread(me) {
-            g = self.thr_cv[me].wait(g).unwrap_or_else(|e| e.into_inner());
+        loop {
+            if self.revoked[me].swap(false, Ordering::SeqCst) {
+                // we were taken for blocked although we are merely waiting for our turn (slow thread
+                // start or slow wake-up on a loaded machine): re-join, the scheduler will name us again
+                self.outstanding.fetch_sub(1, Ordering::SeqCst);
+                if g.turn == Turn::Thread(me) {
+                    g.turn = Turn::Scheduler;
+                }
+                self.sched_cv.notify_one();
+            }
+            if g.turn == Turn::Thread(me) {
+                return;
+            }
+            let (ng, _) = self.thr_cv[me].wait_timeout(g, Duration::from_millis(4)).unwrap_or_else(|e| e.into_inner());
+            g = ng;
         }
     }
 
@@ -169,8 +177,8 @@ impl Sim {
                     Some(true) => asleep_samples += 1,
                     _ => asleep_samples = 0,
                 }
-                if asleep_samples >= 6 {
-                    // continuously asleep in the kernel for >= 6 ms while holding the token: it waits for
+                if asleep_samples >= 10 {
+                    // continuously asleep in a futex wait for >= 10 ms while holding the token: it waits for
                     // a lock whose owner is parked. Revoke; it re-joins at its next function entry.
                     self.revoked[i].store(true, Ordering::SeqCst);
                     self.outstanding.fetch_add(1, Ordering::SeqCst);
